@@ -354,7 +354,7 @@ func init() {
 			bs = append(bs, batches("huge", 1, 0, 900)...)
 			n := 100000
 			if tier == "thorough" {
-				n = 1500000
+				n = 15000000
 			}
 			bs = append(bs, batches("random", 4, n, 900)...)
 			return bs
